@@ -223,6 +223,7 @@ func buildInputs(seed uint64, tier string) ([]input, error) {
 
 	// duplicated names in every scope, range tokens in every number form
 	dupnamesStream(b)
+	impchecksStream(b)
 	rangeFormsStream(b)
 
 	// error tokens of every length class, value tables against value descriptions
